@@ -92,7 +92,7 @@ impl PC {
                     gather_ok(commitments@, evaluations@, *point, ls, it3.index@ as nat),
                     forall|i: int| 0 <= i < it3.index@ ==> (#[trigger] comms@[i]) == commitments@[&ls[i]] && values@[i] == evaluations@[(ls[i], *point)],
 //@loopstart 3
-                    let ghost j = it3.index@;
+                    let ghost j = it3.index@; let ghost c0__ = comms@; let ghost v0__ = values@;
                     proof { assert(*label == ls[j]); }
 //@before /let commitment = commitments\.get\(label\)/
                     proof {
@@ -111,7 +111,12 @@ impl PC {
                         }
                     }
 //@loopend 3
-                    proof { assert(comms@[j] == commitments@[&ls[j]]); assert(values@[j] == evaluations@[(ls[j], *point)]); }
+                    proof {
+                        assert(comms@[j] == commitments@[&ls[j]]); assert(values@[j] == evaluations@[(ls[j], *point)]);
+                        assert forall|i: int| 0 <= i < j + 1 implies (#[trigger] comms@[i]) == commitments@[&ls[i]] && values@[i] == evaluations@[(ls[i], *point)] by {
+                            if i < j { assert(comms@[i] == c0__[i]); assert(values@[i] == v0__[i]); assert(c0__[i] == commitments@[&ls[i]]); }
+                        }
+                    }
 //@beforeloop 3
                 proof {
                     assert(*point == gs[k].1.0 && set_vals(labels@) == gs[k].1.1);
